@@ -471,7 +471,7 @@ fn replay(ctx: &Ctx, _engine: &str, case: &Value) -> CaseResult {
 pub static C14: PropDef = PropDef {
     id: "C14",
     level: "fault_enumeration",
-    rule: "full enumeration of (pipeline length n = 2..5 (thorough 2..6), failing position k = 0..n-1, cause in {program that does not exist, fork() failing with EAGAIN at the k-th spawn; thorough also the j-th pipe() failing with EMFILE for every j}, pipeline stdin in {inherit, pipe, data, file}, terminator in {popen, join, capture, communicate, stream_stdin, stream_stdout} where the pair is expressible, detached on/off). Earlier stages are helper filters that read stdin to end-of-file. Oracle: the terminator returns Err with the failing step's errno; no fork after the failing step and no started-marker beyond it; the call returns (a non-returning call is judged by the wait-for-graph oracle: harness thread in wait4(P), P blocked on a pipe whose other end only the harness holds); afterwards waitpid(-1) says ECHILD (detached: the orphans terminate by themselves because their pipes were closed) and the descriptor table equals the one before. Non-trivial = k >= 1 (something had already been started) or a pipe fault; distinct = distinct enumerated cases. Further causes: the parent's read of the k-th command's exec status interrupted by EINTR (the launch may absorb it; it must not hang), a configuration error (LogicError) at the last position. Further variants of the started commands: they linger 300 ms after their pipes are closed, linger 600 ms ignoring SIGTERM, write 15 000 lines to the shared stderr capture pipe or to a stderr pipe of their own before reading, ask for setuid/setgid to the identity they have; detached commands that linger 400 ms must still be the caller's children (running or uncollected) right after the call.",
+    rule: "full enumeration of (pipeline length n = 2..5 (thorough 2..6), failing position k = 0..n-1, cause in {program that does not exist, fork() failing with EAGAIN at the k-th spawn; thorough also the j-th pipe() failing with EMFILE for every j}, pipeline stdin in {inherit, pipe, data, file}, terminator in {popen, join, capture, communicate, stream_stdin, stream_stdout} where the pair is expressible, detached on/off). Earlier stages are helper filters that read stdin to end-of-file. Oracle: the terminator returns Err with the failing step's errno; no fork after the failing step and no started-marker beyond it; the call returns (a non-returning call is judged by the wait-for-graph oracle: harness thread in wait4(P), P blocked on a pipe whose other end only the harness holds); afterwards waitpid(-1) says ECHILD (detached: the orphans terminate by themselves because their pipes were closed) and the descriptor table equals the one before. Non-trivial = k >= 1 (something had already been started) or a pipe fault; distinct = distinct enumerated cases. Further causes: the parent's read of the k-th command's exec status interrupted by EINTR (the launch may absorb it; it must not hang), a configuration error (LogicError) at the last position. Further variants of the started commands: they linger 300 ms after their pipes are closed, linger 600 ms ignoring SIGTERM, write 15 000 lines to the shared stderr capture pipe or to a stderr pipe of their own before reading, ask for setuid/setgid to the identity they have; detached commands that linger 400 ms must still be the caller's children (running or uncollected) right after the call. With members that hold stderr pipes of their own, a first command that writes to its stdout for as long as it is read (it cannot finish before the command behind it lets go).",
     assumptions: &["/proc/<pid>/syscall and /proc/<pid>/fd are readable (root)", "helper stages exit once their stdin reaches end-of-file"],
     engines: "real",
     workers: |_| 16,
